@@ -207,6 +207,50 @@ def run(ctx):
         check_concat(ctx, specs)
         ctx.nontrivial(('concat', ctx.seed, ctx.shard, j))
         n += 1
+    # size ladders: long sysex as the appended message, thousands of messages in one call
+    if ctx.shard == 3 % ctx.nshards:
+        for ln in (253, 254, 255, 256, 1023, 1024, 1025, 4096, 65535, 65536, 65537, 70000):
+            data = tuple((7 * i) % 128 for i in range(ln))
+            for P in ([], [0xF0, 1, 2], [0x90, 5], [0x40, 0xF7, 0xF8]):
+                check_pair(ctx, P, 'sysex', {'data': data})
+                n += 1
+        for count in (4095, 4096, 4097, 10000):
+            specs = []
+            for i in range(count):
+                specs.append(('note_on', {'channel': i % 16, 'note': i % 128, 'velocity': (i // 128) % 128}) if i % 4
+                             else ('clock', {}))
+            check_concat(ctx, specs)
+            n += 1
+        ctx.nontrivial(None, 52)
+    # a parse inside the iteration of another parse (the module-level functions keep no state between calls)
+    if ctx.shard == 4 % ctx.nshards:
+        for j in range(50):
+            t1, t2 = gen.random_type(ctx.rng), gen.random_type(ctx.rng)
+            a1, a2 = gen.random_attrs(t1, ctx.rng), gen.random_attrs(t2, ctx.rng)
+            outer = midi1.encode(t1, a1) * 2
+            inner = midi1.encode(t2, a2)
+            seen = []
+
+            def feeder():
+                for i, b in enumerate(outer):
+                    if i == len(outer) // 2:
+                        seen.append(mido.parse_all(inner))
+                        seen.append(mido.parse(inner))
+                    yield b
+            case = {'kind': 'nested', 'outer': outer[:20], 'inner': inner[:20]}
+            try:
+                got = mido.parse_all(feeder())
+                p = Parser()
+                p.feed(feeder())
+                got2 = list(p)
+                want = [Message(t1, **a1)] * 2
+                ctx.check('concatenation parses back', got == want and got2 == want and seen[0] == [Message(t2, **a2)]
+                          and seen[1] == Message(t2, **a2), 'nested-parse', case,
+                          lambda: {'got': [m.hex() for m in got2][:4], 'inner': [m.hex() for m in seen[0]][:4]})
+            except Exception as exc:
+                ctx.fail('no exception', f'nested:{type(exc).__name__}', case, f'{type(exc).__name__}: {exc}')
+            n += 1
+        ctx.nontrivial(None, 50)
     # real-time inside sysex: payload lengths 0..8, every interior offset, 1..3 rt bytes
     rts = list(midi1.REALTIME_BYTES)
     r = 0
